@@ -16,3 +16,7 @@ chk("C15", "runtime monitoring: reference-model monitor (independent URL builder
     "Requests built by NewGetRequest / NewJsonRequest (both generations) for every base URL of the context-path grammar x percent-encoded hostile resource paths x queries are compared byte for byte (scheme, host, EscapedPath, RawQuery) with an independent reference builder; a sample is sent over loopback and the request target received is compared too. Held on the bases/paths/queries enumerated.",
     "Trusts: the reference rule 'drop trailing slash, drop a final context segment equal to the root'; contexts with the root name as a complete non-final segment are observed only (unspecified by the property).",
     "DESIGN.md 3 C15")
+chk("C14", "runtime monitoring: wire tap + in-resource request snapshots compared between tunnelled and untunnelled executions of the same call; codec-pair monitor; malformed-request monitor",
+    "Every call kind is executed through the real client and a real loopback server with tunnelling off and with thresholds {1, len-1, len, len+1, large}; the tap decides 'tunnelled iff len(query) > T' and the snapshot taken inside resource code (verb, path, raw query, body bytes, content type, Rest.li headers) must be identical; Encode/DecodeTunnelledQuery pairs over hostile queries/bodies; hand-built malformed tunnelled requests must get 400 with no invocation event. Both generations.",
+    "Trusts: hand-written resource kit registered through the exported Register* API records what resource code sees; only the malformed shapes the property names are in the verdict.",
+    "DESIGN.md 3 C14")
